@@ -323,6 +323,56 @@ def run(ctx):
                      "expected": mb_, "direct": rb, "text": tb, "exceptions": [exc, texc]})
     H.under_every_config(_cfg_pass)
 
+    # ------------------------------------------------------------ alternative spellings, text route
+    # every integer position of every class (immediate, address, array index / slice bound register,
+    # register index, angle numerator / denominator) written as hex / octal / binary / with underscores,
+    # sign, leading zeros, exponent, other digit alphabets ...: the assembler may reject the spelling, or
+    # accept it with EXACTLY that value -- never with another one
+    seen_cls = set()
+    sp_cases = []
+    for fname in ("vanilla", "nv"):
+        for c in H.flavour_classes(fname):
+            if (c.mnemonic, c.id) in seen_cls or (fname, H.T.cls_name(c)) in clash41:
+                continue
+            seen_cls.add((c.mnemonic, c.id))
+            shape = H.shape_of(c)
+            for j, kind in enumerate(shape):
+                for path, part in R.parts_of(kind):
+                    if part == "bank":
+                        continue
+                    good = [R.base_operand_json(k, rng) for k in shape]
+                    if not R.renderable(good):
+                        continue
+                    vals = [rng.choice(R.JUST[part] + R.FAR[part][:5]), rng.choice(R.FAR[part][:8]),
+                            rng.choice(R.INSIDE[part])]
+                    if part in ("int32", "addr", "imm8", "idx"):
+                        vals.append(2 ** 32 + rng.choice([1, 2, 3, 5]))        # low 32 bits look harmless
+                        vals.append(0x1F00000000 + rng.randrange(1, 16))
+                    if not thorough:
+                        vals = rng.sample(vals, 2)
+                    for v in vals:
+                        for sname, stext in R.spellings(v):
+                            sp_cases.append((fname, c, good, j, path, part, v, sname, stext))
+    for (fname, c, good, j, path, part, v, sname, stext) in sp_cases:
+        res.evaluations += 1
+        words = [c.mnemonic] + [R.render_operand(o) if k != j else R.render_operand_alt(o, path, stext)
+                                for k, o in enumerate(good)]
+        text = "# NETQASM 0.0\n# APPID 0\n" + " ".join(words) + "\n"
+        rb, exc, parsed = R.real_text(fname, text)
+        res.count("spelling:" + sname + (":rejected" if rb is None else ":accepted"))
+        bad = not R.in_range_part(part, v)
+        if bad:
+            res.nontrivial.add(("spelling", c.mnemonic, j, str(path), v, sname))
+        if rb is None:
+            continue
+        want = {"c": H.T.cls_name(c), "o": [o if k != j else R.set_part(o, path, v) for k, o in enumerate(good)]}
+        rs = H.real_decode_sub(fname, rb)
+        got = [H.instr_to_json(i) for i in rs.instructions] if rs is not None else None
+        if got != [want]:
+            _mk(res, "the text assembler accepts a differently spelled integer with another value than written",
+                {"fl": fname, "line": " ".join(words), "spelling": sname, "written_value": v, "position": [j, part],
+                 "unrepresentable": bad, "assembled_as": [str(i) for i in rs.instructions] if rs else None})
+
     # ------------------------------------------------------------ metadata (app id, version)
     meta = []
     for app in [0, 1, 65535, 65536, 65537, 70000, 2 ** 32, 2 ** 32 + 4464, 10 ** 20, -1, -65536]:
